@@ -4,13 +4,17 @@
    channel that PrepareRun started with lengths (npre, nsamp) and restored trigger settings ts, after each operation
    of an arbitrary history ops (blocks of any length and content, ChangeTriggerState and ConfigurePulseLengths
    requests in any order, valid or refused).  [annotate] turns (operations, observations) into one [binfo] b per
-   delivered block: settings in force, ground truth bi_G b (all samples delivered so far), the epoch start bi_S b
-   (an epoch = maximal run of blocks between control operations), the triggers of the epoch emitted before the
-   block (bi_prev b), all earlier triggers (bi_all_prev b) and this block's (trigs b).  Spec.v evaluates the
+   delivered block: settings in force, ground truth bi_G b (all samples delivered so far), the first candidate
+   bi_C b of the epoch (an epoch = maximal run of blocks between control operations), the triggers of the epoch
+   emitted before the block (bi_prev b), all earlier triggers (bi_all_prev b) and this block's (trigs b).  Spec.v evaluates the
    criteria on the ground truth in absolute frame numbers:
      edge_crit b k  : G'[k]+G'[k-1]-G'[k-2]-G'[k-3] >= level (rising) / <= -level (falling), G' shifted by 2^15 on signed channels
      level_crit b k : G'[k] >= thr and G'[k-1] < thr (rising), or the mirror image
-     first_cand b = bi_S b + npre,  dec_end b = (frame after the last delivered sample) - (nsamp - npre)
+     first_cand b = bi_C b: F0 + npre after a fresh start; after a control operation the candidates continue where the
+                    decidable ones of the previous epoch ended (nothing delivered but not yet decidable is dropped by
+                    reconfiguring), but not before (history bound) + new npre, the history bound being what one old
+                    record length of retained data guarantees (C01/Spec.v new_epoch)
+     dec_end b = (frame after the last delivered sample) - (nsamp - npre)
      all_trigs b = every trigger emitted up to and including this block, epoch_trigs b = those of the epoch
      auto_dly b = max(auto delay in samples, nsamp)
    Every statement is made for EVERY block of the history, i.e. for every prefix; taking the last block of an epoch
@@ -102,8 +106,8 @@ Proof. exact st_model_passes_checker. Qed.
 Print Assumptions model_passes_checker.
 
 (* what the checker's "true" means for ANY observed history: for every block, soundness, no overlap and the auto
-   gap bound as above, and completeness for the candidates that became decidable with that block (new_lo b =
-   max(first_cand b, block first frame - (nsamp - npre))) against the triggers emitted so far *)
+   gap bound as above, and completeness for the candidates that became decidable with that block (from new_lo b =
+   bi_lo b, the bound up to which earlier blocks were judged) against the triggers emitted so far *)
 Theorem checker_sound :
   forall npre nsamp ts F0 h,
     C02_check npre nsamp ts F0 h = true ->
